@@ -23,6 +23,7 @@ type scenario struct {
 	TA      time.Duration `json:"ta"`      // instant of the acceptable response / of the burst (-1: none)
 	Event   string        `json:"event"`   // none | cancel | deadline | close | close2
 	TC      time.Duration `json:"tc"`
+	Cfg     int           `json:"cfg"` // client logging configuration (cli.NewCfg)
 }
 
 func fam(name string) cli.Family {
@@ -109,7 +110,7 @@ func run(t *testing.T, sc scenario) (out outcome) {
 	budget := sc.T * time.Duration((int64(1)<<uint(sc.N))-1)
 	synctest.Test(t, func(t *testing.T) {
 		conn := sconn.New(0)
-		c, err := f.New(conn, sc.T, sc.N)
+		c, err := f.NewCfg(conn, sc.T, sc.N, sc.Cfg)
 		if err != nil {
 			t.Fatal(err)
 		}
@@ -354,7 +355,7 @@ func grid(quick bool) []scenario {
 								if quick && ev != "none" && tr != "silence" && (int(tc)+int(ta)+n)%3 != 0 {
 									continue // quick: a deterministic third of the (traffic x event instant) products
 								}
-								out = append(out, scenario{fm, T, n, tr, ta, ev, tc})
+								out = append(out, scenario{fm, T, n, tr, ta, ev, tc, len(out) % cli.NCfg})
 							}
 						}
 					}
